@@ -9,7 +9,8 @@
 (*   id, mode ("concrete" | "opaque"),                                     *)
 (*   calls  : the calls the driver made into the user callables, in order: *)
 (*            [fn, inc, c, ret, rmax, lin]                                 *)
-(*   ret    : [error, increments, cs, equil, leftover]  what static()      *)
+(*   ret    : [error, increments, cs, equil, leftover, untouched]           *)
+(*            what static()                                                *)
 (*            returned (read after the harness scribbled on every array a  *)
 (*            callable was handed or returned) and, per reported pair, the *)
 (*            re-evaluated max|fext(lambda) - fint(c)| of the USER's       *)
@@ -149,6 +150,7 @@ Clauses ==  \* <<name, holds>>; judged on what was RETURNED (and the inferred in
     << <<"Return.noError", Run.ret.error = "">>,
        <<"Return.increments", SeqEqR(Run.ret.increments, increments)>>,
        <<"Return.cs(Snapshots)", SeqEqV(Run.ret.cs, cs)>>,
+       <<"Callables.returnValuesUntouched", Run.ret.untouched = 1>>,
        <<"Replay.scriptConsumed", ~SameModel \/ Run.ret.leftover = 0>>,
        <<"ReportedEquilibrated.reevaluated",
             /\ Len(Run.ret.equil) = Len(Run.ret.increments)
